@@ -42,6 +42,8 @@ def gen_case(rng, big):
 
 def klass(case, name, info, clause):
     c = c01.cls_of(name)
+    if c in ('fft', 'auto') and case.get('in_kind') == 'regular-w' and info.get('is_fft'):
+        return 'fft-per-point-weights'
     if (c in ('fft', 'auto') and info.get('inconsistent')) or (info.get('grid_inconsistent') and not clause.startswith('adjoint')):
         return 'fft-grid-inconsistent'
     if c == 'zoom' and (case['tensor'] or len(case['N']) >= 3):
@@ -61,12 +63,14 @@ def oracle_case(case, thorough=False):
         try:
             out_grid, transforms = c01.build_transforms(case, in_grid, thorough or case.get('all_switches', False))
         except Exception as e:  # noqa
-            return [('construct-raises', 'constructing the transform raised %s: %s' % (type(e).__name__, e))], obs
+            key = 'fft-per-point-weights' if case.get('in_kind') == 'regular-w' else 'construct-raises'
+            return [(key, 'constructing the transform raised %s: %s' % (type(e).__name__, e))], obs
         x = c01.make_field(case, in_grid)
         T = int(np.prod(case['tensor'])) if case['tensor'] else 1
         xv = np.asarray(x).reshape(T, -1)
         w_in = in_grid.weights
         e_in = energy(xv, w_in)
+        seen_matrix = set()
         for name, thunk in transforms:
             try:
                 ft = thunk()
@@ -76,8 +80,9 @@ def oracle_case(case, thorough=False):
             og = ft.output_grid
             info = {}
             full = False
-            is_fft_grid = case['family'] == 'fft'
+            is_fft_grid = case['family'] == 'fft' and case.get('in_kind', 'regular') == 'regular'
             if isinstance(ft, hcipy.FastFourierTransform):
+                info['is_fft'] = True
                 M = np.array(ft.internal_shape[::-1], dtype='float64')
                 info['inconsistent'] = bool(np.any(np.abs(og.delta * M * in_grid.delta - 2 * np.pi) > 1e-9))
                 if name == 'fft-std':
@@ -93,6 +98,25 @@ def oracle_case(case, thorough=False):
                 continue        # reported by C01 (selection-output-grid)
             obs['impls'].append(name + ':' + type(ft).__name__)
             w_out = og.weights / two_pi_n
+            mk = ('matrix', type(ft).__name__, id(og))
+            if mk not in seen_matrix and in_grid.size * og.size <= 40000:
+                seen_matrix.add(mk)
+                try:
+                    Af = np.asarray(ft.get_transformation_matrix_forward())
+                    Ab = np.asarray(ft.get_transformation_matrix_backward())
+                    xm = np.asarray(x).reshape(T, -1)
+                    ym = np.asarray(c01.make_field(case, og, which='g')).reshape(T, -1)
+                    Fx = (Af @ xm.T).T
+                    By = (Ab @ ym.T).T
+                    lhs = inner(ym, Fx, w_out)
+                    rhs = inner(By, xm, w_in)
+                    scale = max(float(np.sum(np.abs(ym) * np.abs(Fx) * w_out)), float(np.sum(np.abs(By) * np.abs(xm) * w_in)), 1e-300)
+                    obs['clauses'].append('matrix-adjoint')
+                    if not abs(lhs - rhs) <= tol * scale:
+                        bad.append(('matrix-adjoint', '%s: the transformation matrices are not adjoint: <y,A_f x>_out = %r, <A_b y,x>_in = %r' % (
+                            type(ft).__name__, lhs, rhs)))
+                except Exception as e:  # noqa
+                    bad.append(('matrix-raises', '%s.get_transformation_matrix_* raised %s: %s' % (type(ft).__name__, type(e).__name__, e)))
             rounds = [(case, x, None)] + [(dict(case, tensor=st['tensor'], dtype=st['dtype'], field=st['field'], gseed=st['gseed']), None, st)
                                            for st in case.get('seq', [])]
             for ri, (rc, xr, st) in enumerate(rounds):
@@ -305,7 +329,7 @@ def run(ctx):
                 Mod = int(ft.shape_out[::-1][d])
                 checks.append((len(lines), 0, (lambda r, Md=Md, Mod=Mod: check_full(r, Md, Mod)), case, 'full'))
                 lines.append('C02 full %d %s %s' % (case['N'][d], rat(case['q'][d]), rat(case['fov'][d])))
-            if int(np.prod(ft.internal_shape)) <= (400000 if thorough else 60000):
+            if int(np.prod(ft.internal_shape)) <= (400000 if thorough else 60000) and case.get('in_kind') != 'regular-w':
                 for ls, Fkj, Bjk, cfg, j, k in adj_requests(case, ft):
                     checks.append((len(lines), len(ls), (lambda rs, Fkj=Fkj, Bjk=Bjk: compare_adj(rs, Fkj, Bjk)), case, 'adj %s %s %s' % (cfg, j, k)))
                     lines += ls
